@@ -1,6 +1,7 @@
 """C13 — keys, WIF, ECDSA: the library (OpenSSL behind ctypes + python glue) against the Lean reference curve
 and the Lean model of the glue."""
 import hashlib
+import random
 
 from ..framework import Prop, mk, guarded, ensure_repo_on_path
 from . import c13_hist as H
@@ -181,6 +182,9 @@ class C13(Prop):
     def generate(self, rng, tier, shard, nshards):
         big = tier == 'thorough'
         i = 0
+        # structural randomness (anything that feeds a list later partitioned by index) comes from a generator that is
+        # IDENTICAL in every shard; the per-shard `rng` is used only for content generated independently per shard
+        crng = random.Random('%s:%s:%s:common' % (getattr(self, 'seed', 0), self.id, tier))
         # (h) histories on live objects: several CPubKey / CBitcoinSecret objects used in interleaved order,
         #     and WIF / addresses across chain switches (every chain selected after every other)
         mat = H.key_material(self, rng, 12)
@@ -189,7 +193,7 @@ class C13(Prop):
         for _ in range(10 if big else 2):
             yield mk('c13.hist', '|'.join(H.gen_chain_history(rng, mat)), tag='hist-chains')
         nkeys = 6000 if big else 300
-        secs = secrets(rng.__class__('c13-secrets-%s' % tier), nkeys)   # same list in every shard
+        secs = secrets(crng, nkeys)                                   # same list in every shard
         mine = [(j, s) for j, s in enumerate(secs) if j % nshards == shard]
 
         # (a) key derivation + WIF under every chain, both compressions
@@ -211,7 +215,7 @@ class C13(Prop):
                         yield mk('c13.wifparse', chain, ver, pl.hex(), tag='wif')
 
         # (c) library signs -> reference judges; verification matrix around each signature
-        ds = digests(rng, 6 if big else 2)
+        ds = digests(crng, 6 if big else 2)
         for j, s in mine:
             sb = s.to_bytes(32, 'big').hex()
             comp = j & 1
@@ -283,9 +287,9 @@ class C13(Prop):
                  2 ** 255 - 1, 2 ** 256 - 1, HALF ^ 1, HALF - 256, HALF + 256, HALF - 2 ** 128, HALF + 2 ** 128,
                  (HALF >> 8), (HALF >> 8) + 1, 0x7f << 248, 0x80 << 248]
         svals += [HALF - (1 << b) for b in range(0, 255, 17)] + [HALF + (1 << b) for b in range(0, 255, 17)]
-        svals += [rng.randrange(1, N) for _ in range(200 if big else 20)]
-        svals += [rng.randrange(1, 1 << (8 * rng.randrange(1, 32))) for _ in range(60 if big else 10)]
-        rvals = [1, 0x7f, 0x80, N - 1, 2 ** 255, 2 ** 256 - 1, rng.randrange(1, N), rng.randrange(1, 2 ** 100), 0]
+        svals += [crng.randrange(1, N) for _ in range(1500 if big else 150)]
+        svals += [crng.randrange(1, 1 << (8 * crng.randrange(1, 32))) for _ in range(500 if big else 60)]
+        rvals = [1, 0x7f, 0x80, N - 1, 2 ** 255, 2 ** 256 - 1, crng.randrange(1, N), crng.randrange(1, 2 ** 100), 0]
         for sv in svals:
             i += 1
             if i % nshards != shard:
@@ -295,7 +299,7 @@ class C13(Prop):
                 yield mk('c13.isLowDer', sg.hex(), tag='lowder')
                 if 1 <= sv < N and 1 <= rv < N:
                     yield mk('c13.toLowS', sg.hex(), tag='tolows')
-        base = der(rng.randrange(1, N), HALF)
+        base = der(crng.randrange(1, N), HALF)
         lr = base[3]
         muts = [base[:k] for k in range(len(base))]                       # every truncation
         for pad in (1, 2, 5):                                             # S with leading zeros / S longer
@@ -315,9 +319,9 @@ class C13(Prop):
             if 0 <= v <= 255:
                 muts.append(base[:3] + bytes([v]) + base[4:])
                 muts.append(base[:5 + lr] + bytes([v]) + base[6 + lr:])
-        muts += [bytes(rng.randrange(256) for _ in range(rng.randrange(0, 80))) for _ in range(300 if big else 40)]
-        muts += [bytes(rng.choice([0, 0, 1, 2, 4, 32, 33]) for _ in range(rng.randrange(0, 12)))
-                 for _ in range(300 if big else 40)]
+        muts += [bytes(crng.randrange(256) for _ in range(crng.randrange(0, 80))) for _ in range(4000 if big else 500)]
+        muts += [bytes(crng.choice([0, 0, 1, 2, 4, 32, 33]) for _ in range(crng.randrange(0, 12)))
+                 for _ in range(4000 if big else 500)]
         for m in muts:
             i += 1
             if i % nshards == shard:
@@ -328,10 +332,10 @@ class C13(Prop):
         hb = HALF.to_bytes(32, 'big')
         pairs += [(hb, hb), (hb[1:], hb), (b'\x00' + hb, hb), (hb, b'\x00\x00' + hb), (b'\x01' + hb, hb),
                   ((HALF + 1).to_bytes(32, 'big'), hb), ((HALF - 1).to_bytes(32, 'big'), hb)]
-        for _ in range(4000 if big else 300):
-            la, lb = rng.randrange(0, 6), rng.randrange(0, 6)
-            a = bytes(rng.choice([0, 0, 1, 0x7f, 0x80, 0xff, rng.randrange(256)]) for _ in range(la))
-            b = a[:lb] if rng.random() < .3 else bytes(rng.choice([0, 0, 1, 0x7f, 0x80, 0xff, rng.randrange(256)])
+        for _ in range(40000 if big else 4000):
+            la, lb = crng.randrange(0, 6), crng.randrange(0, 6)
+            a = bytes(crng.choice([0, 0, 1, 0x7f, 0x80, 0xff, crng.randrange(256)]) for _ in range(la))
+            b = a[:lb] if crng.random() < .3 else bytes(crng.choice([0, 0, 1, 0x7f, 0x80, 0xff, crng.randrange(256)])
                                                         for _ in range(lb))
             pairs.append((a, b))
         for a, b in pairs:
